@@ -127,10 +127,122 @@ def array_jobs(tier):
     return J
 
 
+def c19_reuse_jobs(tier, seed):
+    """C19's container harnesses already contain single-allocation-failure slices (llist OP=13, slist OP=7, htable
+    OP=7/8, wrapper scenarios re-run for every failing position): run those harness files as C14 jobs."""
+    c19 = _load("C19/jobs.py", "c19_jobs_for_c14")
+    src = c19.llist_jobs("thorough") + c19.slist_jobs(tier, seed) + c19.htable_jobs(tier) + c19.wrap_jobs("thorough")
+    J = []
+    for j in src:
+        n = j["name"]
+        if n.startswith("wrap_"):
+            if tier == "quick" and "_p012_" not in n:
+                continue  # quick: all failing positions on the collision-free pattern; thorough: every pattern
+        elif "oom" not in n:
+            continue
+        if tier == "quick" and n.startswith("htable_") and "_e3_" in n and not (n.endswith("_p0000") or n.endswith("_p0123") or
+                                                                              n.endswith("_p0012") or "_p0001_o0" in n or
+                                                                              "_p0123_o0" in n or "_p0112_o4" in n):
+            continue
+        j = dict(j)
+        j["harness"] = "../C19/" + j["harness"]
+        if "support" in j:
+            j["support"] = [("c14_libc.c" if x == "c19_libc.c" else x) for x in j["support"]]
+        j["bound"] = j.get("bound", "") + " [harness of C19 reused: its witnesses 'insert failed' / 'expand failed' / 'unfailed run' play the role of 'allocation failure reported' / 'no failure'; the llist/slist slices assert the NULL result directly]"
+        J.append(j)
+    return J
+
+
+def create_jobs(tier):
+    real = LIB + ["src/lib/dsa/ares_llist.c", "src/lib/dsa/ares_slist.c", "src/lib/dsa/ares_htable.c"]
+    return [dict(name="create_%s" % nm, harness="create_oom.c", defines=["-DOP=%d" % op], real=real, unwind=20,
+                 witnesses=["end", FAILW, OKW],
+                 bound="%s with any one of its allocations failing (position 0..2, solver-chosen)" % what)
+            for op, nm, what in ((0, "llist", "ares_llist_create"), (1, "slist", "ares_slist_create"),
+                                 (2, "htable", "ares_htable_create + ares_htable_all_buckets"))]
+
+
+# ---------------------------------------------------------------------------------------------- 3. record building
+REC = ["src/lib/record/ares_dns_mapping.c", "src/lib/record/ares_dns_multistring.c", "src/lib/record/ares_dns_name.c",
+       "src/lib/record/ares_dns_parse.c", "src/lib/record/ares_dns_record.c", "src/lib/record/ares_dns_write.c"]
+REC_BASE = ["src/lib/str/ares_buf.c", "src/lib/str/ares_str.c", "src/lib/dsa/ares_array.c", "src/lib/dsa/ares_llist.c",
+            "src/lib/util/ares_math.c", "src/lib/ares_library_init.c", "src/lib/ares_free_string.c"]
+REC_LIB = REC + REC_BASE
+REC_SUP = ["vp_rt.c", "valloc.c", "memloops.c", "c14_mem.c"]
+
+
+def sliced(mk, nalloc, per, absorbed=False):
+    """jobs covering failure positions 0..nalloc (0 = none) in slices of `per`; the harness BOUND-checks that the
+    unfailed call makes exactly nalloc allocations (harness/C14/count_allocs.py measures it)"""
+    J = []
+    lo = 0
+    while lo <= nalloc:
+        hi = min(lo + per - 1, nalloc)
+        wit = ["end"] + ([OKW] if lo == 0 else []) + ([FAILW] if hi > 0 else [])
+        J.append(mk("f%d_%d" % (lo, hi), ["-DFLO=%d" % lo, "-DFHI=%d" % hi, "-DNF=%d" % nalloc, "-DNALLOC=%d" % nalloc],
+                    "failing position %d..%d of %d" % (lo, hi, nalloc), wit))
+        lo = hi + 1
+    return J
+
+
+def rec_job(name, defs, what, **kw):
+    d = dict(name="rec_" + name, harness="record_oom.c", defines=defs, real=REC_LIB, support=REC_SUP, unwind=140,
+             unwindset=["vp_realloc.0:650"],
+             witnesses=["end", FAILW, OKW],
+             bound="record built through the public API without failure, then ONE " + what + " in which any one of its "
+                   "allocations (solver-chosen position, 0 = none) fails")
+    d.update(kw)
+    return d
+
+
+def record_jobs(tier):
+    J = [rec_job("create", ["-DOP=0"], "ares_dns_record_create (record + 4 section arrays)")]
+    for n in (0, 4):
+        J.append(rec_job("query_add_n%d" % n, ["-DOP=1", "-DNPRE=%d" % n], "ares_dns_record_query_add with %d questions present" % n))
+    J.append(rec_job("query_set_name", ["-DOP=2"], "ares_dns_record_query_set_name over an existing name"))
+    for sect in (1, 2, 3):
+        for n in (0, 4):
+            if tier == "quick" and sect != 1 and n == 0:
+                continue
+            J.append(rec_job("rr_add_s%d_n%d" % (sect, n), ["-DOP=3", "-DSECT=%d" % sect, "-DNPRE=%d" % n],
+                             "ares_dns_record_rr_add into section %d holding %d RRs (4: storage doubles and moves)" % (sect, n)))
+    for n in (0, 4):
+        J.append(rec_job("rr_prealloc_n%d" % n, ["-DOP=4", "-DNPRE=%d" % n], "ares_dns_record_rr_prealloc(+3) with %d RRs present" % n))
+    for n in (0, 1):
+        J.append(rec_job("set_str_old%d" % n, ["-DOP=5", "-DNPRE=%d" % n], "ares_dns_rr_set_str (NS name, HINFO OS)%s" % (" over an old value" * n)))
+        J.append(rec_job("set_bin_old%d" % n, ["-DOP=6", "-DNPRE=%d" % n], "ares_dns_rr_set_bin (CAA value, TLSA data)%s" % (" over an old value" * n)))
+    for n in (0, 1, 4):
+        J.append(rec_job("txt_set_bin_n%d" % n, ["-DOP=7", "-DNPRE=%d" % n], "ares_dns_rr_set_bin on TXT holding %d strings" % n))
+        J.append(rec_job("txt_add_abin_n%d" % n, ["-DOP=8", "-DNPRE=%d" % n], "ares_dns_rr_add_abin on TXT holding %d strings" % n))
+    for rt, rn in ((41, "opt"), (64, "svcb")):
+        for n in (0, 1, 4):
+            if tier == "quick" and rt == 64 and n == 1:
+                continue
+            J.append(rec_job("set_opt_%s_n%d" % (rn, n), ["-DOP=9", "-DRTYPE=%d" % rt, "-DNPRE=%d" % n],
+                             "ares_dns_rr_set_opt of a new code on %s holding %d options" % (rn.upper(), n)))
+        J.append(rec_job("set_opt_%s_replace" % rn, ["-DOP=9", "-DRTYPE=%d" % rt, "-DNPRE=2", "-DREPL"],
+                         "ares_dns_rr_set_opt replacing the value of an existing code on %s" % rn.upper()))
+    for n in (0, 4):
+        J.append(rec_job("set_opt_own_n%d" % n, ["-DOP=10", "-DRTYPE=41", "-DNPRE=%d" % n],
+                         "ares_dns_rr_set_opt_own (caller-allocated value) on OPT holding %d options" % n))
+    for nm, n, t0, t1 in (("empty", 1, 0, 0), ("e_e", 2, 0, 0), ("3", 1, 3, 0), ("1_2", 2, 1, 2)):
+        J.append(rec_job("txt_get_bin_%s" % nm, ["-DOP=11", "-DNPRE=%d" % n, "-DTL0=%d" % t0, "-DTL1=%d" % t1],
+                         "ares_dns_rr_get_bin on TXT (strings of %s bytes): builds the cached concatenation" % ([t0, t1][:n]),
+                         **({"kf_group": "rec_txt_get_bin_allempty"} if t0 + t1 == 0 else {})))
+    J += sliced(lambda nm, defs, txt, wit: rec_job("duplicate_mx_" + nm, ["-DOP=12"] + defs,
+                                                   "ares_dns_record_duplicate of question + MX RR (ares_dns_write + ares_dns_parse "
+                                                   "inside), " + txt, witnesses=wit),
+                nalloc=41, per=14, absorbed=True)
+    return J
+
+
 def jobs(tier, seed):
     J = []
     J += buf_jobs(tier)
+    J += record_jobs(tier)
     J += array_jobs(tier)
+    J += create_jobs(tier)
+    J += c19_reuse_jobs(tier, seed)
     extra = os.environ.get("C14_TEST_DEFS", "").split()  # development aid: e.g. C14_TEST_DEFS=-DKF_binstr_empty_oom
     for j in J:
         j.setdefault("mem_gb", 6)
